@@ -9,7 +9,8 @@ import datetime
 WORDS = ['alpha', 'beta', 'gamma', 'delta', 'x', 'yy', 'zzz', 'A1', 'B-22',
          'hello world', "it's", 'say "hi"', 'back\\slash', 'tab\there',
          'café', 'naïve', '数据', 'Ω', '', ' lead', 'trail ', '12', '3.5',
-         'NULL', 'nan', 'None', 'a,b', 'line\nbreak', '100%', 'ß']
+         'NULL', 'nan', 'None', 'a,b', 'line\nbreak', '100%', 'ß',
+         'alpha\n', 'beta\n']
 
 INT_DTYPES = ['int8', 'int16', 'int32', 'int64', 'uint8', 'uint16', 'uint32',
               'uint64']
@@ -154,6 +155,12 @@ def gen_column(r, name, n, kinds=None):
         col['dtype'] = {'str': 'object', 'category': 'category',
                         'string_ext': 'string', 'str_pd3': 'str'}[kind]
         col['values'] = vals
+        if kind == 'category' and r.chance(0.4):
+            # categories that no row uses (declared up front, or left
+            # behind after rows were filtered out)
+            col['extra_categories'] = r.sample(
+                ['q', '', 'an unused and rather long category name 12345',
+                 'Zz9', 'ünused'], r.randint(1, 2))
     elif kind.startswith('dt_'):
         unit = kind[3:]
         if unit == 'tz':
@@ -213,6 +220,10 @@ def build_frame(spec):
             s = pd.Series(vals, dtype=object)
         elif dt == 'category':
             s = pd.Series(vals, dtype=object).astype('category')
+            extra = [x for x in c.get('extra_categories', [])
+                     if x not in set(s.cat.categories)]
+            if extra:
+                s = s.cat.add_categories(extra)
         elif dt == 'string':
             s = pd.Series(vals, dtype='string')
         elif dt == 'str':
